@@ -14,7 +14,7 @@ EVIDENCE = dict(
     rule="(1) every token stream of <= 4 (thorough 5) tokens over {name,int,<<,>>,[,],lone '>'} from ParserLoop.tla through "
          "core.Parser / contentstream.Parser; (2) every reference graph on 3 nodes from GraphWalk.tla rendered as a /Kids tree and a "
          "/Prev chain and walked by every entry point incl. ResolveDeep; (3) Faults.tla: every (format, fault kind, site selector, "
-         "parameter) single fault over 8 base documents (2 PDF layouts, DOCX, ODT, XLSX, PPTX, EPUB, HTML), every numeric field x 4 extreme values and every reference x 3 retargets at every site; thorough adds "
+         "parameter) single fault over 10 base documents (4 PDF layouts: classic table / xref+object streams / PNG-predicted streams incl. predicted xref streams / TIFF-predicted streams; DOCX, ODT, XLSX, PPTX, EPUB, HTML), every numeric field x 4 extreme values - including the fields inside encoded streams: every number of every object-stream header and every field of every cross-reference-stream row, rebuilt by the writer - and every reference x 3 retargets at every site; thorough adds "
          "truncation at every token boundary and -simulate double faults; each damaged input goes through 11-13 public entry "
          "points inside watched child processes. ParserLoop / GraphWalk are checked for Termination under weak fairness, their "
          "pinned variants refuted. Recorded Call events validated by FaultsTrace.tla. Non-trivial = input actually damaged.",
@@ -48,16 +48,20 @@ def run(ctx):
     for f in faults:
         cases.append({"fmt": f["fmt"], "faults": f["faults"], "k": k})
     # numeric fields: every site of every base document, every extreme value (sizes, counts, widths, offsets)
-    for fmt in ("pdf-classic", "pdf-stream", "docx", "odt", "xlsx", "pptx", "epub", "html"):
+    for fmt in ("pdf-classic", "pdf-stream", "pdf-png", "pdf-tiff", "docx", "odt", "xlsx", "pptx", "epub", "html"):
         for val in ("0", "-1", "2147483648", "9223372036854775807"):
             cases.append({"fmt": fmt, "faults": [{"kind": "number", "site": 0, "param": val}], "all": True})
-    for fmt in ("pdf-classic", "pdf-stream"):
+    # ... and the numeric fields inside encoded streams: object-stream headers, cross-reference-stream rows
+    for fmt in ("pdf-stream", "pdf-png"):
+        for val in ("0", "-1", "2147483648", "9223372036854775807"):
+            cases.append({"fmt": fmt, "faults": [{"kind": "instream", "site": 0, "param": val}], "all": True})
+    for fmt in ("pdf-classic", "pdf-stream", "pdf-png", "pdf-tiff"):
         for tgt in ("self", "ancestor", "missing"):
             cases.append({"fmt": fmt, "faults": [{"kind": "retarget", "site": 0, "param": tgt}], "all": True})
     if not q:
-        for fmt in ("pdf-classic", "pdf-stream", "html"):
+        for fmt in ("pdf-classic", "pdf-stream", "pdf-png", "pdf-tiff", "html"):
             cases.append({"fmt": fmt, "faults": [{"kind": "truncate", "site": 0, "param": "-"}], "all": True})
-        for fmt in ("pdf-classic", "pdf-stream"):
+        for fmt in ("pdf-classic", "pdf-stream", "pdf-png", "pdf-tiff"):
             for kind in ("unbalance", "dropobj", "corruptstream"):
                 cases.append({"fmt": fmt, "faults": [{"kind": kind, "site": 0, "param": "-"}], "all": True})
         sim = ctx.tlc("FaultsMC", "Faults_sim.cfg", workers=1, simulate=3000, depth=3, collect=True, count=False)["cases"]
